@@ -145,6 +145,8 @@ func TestGovcBounded(t *testing.T) {
 	gen("", maxLen)
 	strs = append(strs, "{\"a\"}", "{\"k\":\"v\"}", "{\"¬\"}", "{\"a\nb\"}", "{\"", "{\"}", "¬¬", "line1\nline2", "tab\there", "\\n", "\\\\", "\\\"")
 	// JSON-looking strings with white space around them, control and non-printable characters
+	// text that LOOKS like an escape sequence of some notation but is plain characters here
+	strs = append(strs, "\\u0041", "a\\u00e9b", "\\\\u0041", "\\U00000041", "\\x41", "\\101", "\\t", "\\r", "\\0", "\\a", "%41", "&amp;", "$1", "${a}", "\\u{41}", "C:\\users\\u0041dmin")
 	strs = append(strs, "{\"a\": 1}\n", " {\"a\"}", "{\"a\"} ", "\t{\"k\": \"¬\"} ", "\n{\"a\"}\n", "\r", "a\rb", "\x01", "a\x00b", "\u00a0", "é", "日本", "\x7f", "\u2028")
 	kw := func(s string) string { return "ʞ" + s }
 	var atoms []types.MalType
@@ -222,7 +224,7 @@ func init() {
 }
 
 func runC06(c *CheckCtx) {
-	c.runBounded("", c06Harness, "every string over the alphabet {a \" \\ newline tab ¬ U+029E { } space ; n ' ( $} of length <= 3 (quick) / 4 (thorough) plus 26 hand-picked strings (JSON-looking with and without surrounding white space, control and non-printable characters; strings that begin with U+029E are keywords by representation and are left out); 7 scalars; 3 keywords; 4 symbols; all lists and vectors of 0-2 elements and all hash-maps/sets of 1-2 entries over 15 representative atoms and 14 keys (with tab, CR, control, non-breaking space, backslash); one more nesting level over a sample (every 7th, all in thorough) of those; distinct = all cases (the enumeration has no repetitions); non-trivial = every case (each is printed, read back and compared)", true)
+	c.runBounded("", c06Harness, "every string over the alphabet {a \" \\ newline tab ¬ U+029E { } space ; n ' ( $} of length <= 3 (quick) / 4 (thorough) plus 42 hand-picked strings (JSON-looking with and without surrounding white space, control and non-printable characters, text that looks like an escape sequence of another notation such as backslash-u-hex, backslash-x, %41; strings that begin with U+029E are keywords by representation and are left out); 7 scalars; 3 keywords; 4 symbols; all lists and vectors of 0-2 elements and all hash-maps/sets of 1-2 entries over 15 representative atoms and 14 keys (with tab, CR, control, non-breaking space, backslash); one more nesting level over a sample (every 7th, all in thorough) of those; distinct = all cases (the enumeration has no repetitions); non-trivial = every case (each is printed, read back and compared)", true)
 	c.assumptions["bounded stand-in: nothing is claimed outside the enumerated family"] = true
 	c.assumptions["floating-point literals are excluded by the statement"] = true
 }
